@@ -514,7 +514,7 @@ func c04LenIn(w *run.Worker, d dctx) {
 	I, S, Id := rt.Int, rt.Str, rt.Id
 	vals := []nodeFn{
 		func() *rt.Node { return rt.List() }, func() *rt.Node { return rt.List(I(1), S("a"), rt.Nil(), rt.List(I(1)), rt.Map(S("k"), I(1)), rt.Float(1.5), rt.Bool(true)) },
-		func() *rt.Node { return rt.Map() }, func() *rt.Node { return rt.Map(S("a"), I(1), S("é"), rt.List()) },
+		func() *rt.Node { return rt.Map() }, func() *rt.Node { return rt.Map(S("a"), I(1), S("é"), rt.List()) }, func() *rt.Node { return rt.Map(S("a"), rt.Nil(), S(""), I(0)) },
 		func() *rt.Node { return S("") }, func() *rt.Node { return S("abc") }, func() *rt.Node { return S("héé") }, func() *rt.Node { return S("日本語x") },
 		func() *rt.Node { return I(5) }, func() *rt.Node { return rt.Nil() }, func() *rt.Node { return rt.Bool(true) }, func() *rt.Node { return rt.Float(2.5) },
 		func() *rt.Node { return rt.Slice(rt.List(I(1), I(2), I(3)), I(1), nil, nil, false) },
